@@ -451,6 +451,9 @@ func genC12(seed uint64, tier string) *Scenario {
 			}
 			if r.chance(2, 3) {
 				q := Op{Kind: findKinds[r.n(len(findKinds))], Re: heavyRe, In: InputSpec{Unit: heavyFam.In.Unit, Rep: 1 + r.n(4)}, N: -1, TimeoutNs: -1, Repl: repls[r.n(len(repls))], In2: lit("a")}
+				if heavyFam.Probe != "" && r.chance(2, 3) {
+					q.In = lit(heavyFam.Probe)
+				}
 				cl.Ops = append(cl.Ops, q)
 			}
 			continue
